@@ -87,5 +87,14 @@ SiteProg(q, form, where) ==
   ELSE SitePre(q) \o <<Func("try", <<Param("code", "int")>>, <<>>, SiteCall(form, Var("code")))>> \o [i \in 1..Len(q) |-> ExprS(CallE("try", <<NatLit(q[i])>>))]
 SiteHist == {Mk("C18/site/" \o form \o "/" \o where \o "/" \o BName(q), "top", SiteProg(q, form, where) \o <<Print1(StrL("end"))>>)
              : q \in BSeqs(4), form \in {"define", "assign", "pipe", "cond"}, where \in {"loop", "func"}}
-ASSUME ndJsonSerialize("fam.ndjson", SetToSeq(One \cup Two \cup {c \in Many : TRUE} \cup Pipes \cup Seqs \cup Hist3 \cup SiteHist))
+\* the program named by a STRING LITERAL holding a path (README: @`helper\dir.bat`("/b")): interpreted and raw spelling, a blank in a directory name,
+\* as a statement, captured, as a stage of a pipe, at top level and in a function
+LitStage(n, raw, as) == [name |-> n, lit |-> TRUE, raw |-> raw, args |-> as]
+LitNames == <<"tools/pa", "./pb", "my tools/pc", "a/b/c/pa">>
+LitCases == {Mk("C18/litname/" \o ToString(i) \o "/" \o u \o "/" \o ctx \o (IF raw THEN "/raw" ELSE ""), ctx,
+                IF u = "stmt" THEN <<ExprS(App(<<LitStage(LitNames[i], raw, <<StrL("one"), StrL("two words")>>)>>)), Print1(StrL("after"))>>
+                ELSE IF u = "cap" THEN <<Def(<<"o", "e", "c">>, <<App(<<LitStage(LitNames[i], raw, <<StrL("x4"), StrL("v")>>)>>)>>), PrintS(<<StrL("["), Var("o"), StrL("]"), Var("c")>>)>>
+                ELSE <<Def(<<"o", "e", "c">>, <<App(<<Stage("pa", <<StrL("first")>>), LitStage(LitNames[i], raw, <<StrL("mid")>>), Stage("pc", <<StrL("last")>>)>>)>>), PrintS(<<StrL("["), Var("o"), StrL("]"), Var("c")>>)>>)
+             : i \in 1..Len(LitNames), u \in {"stmt", "cap", "pipe"}, ctx \in {"top", "func"}, raw \in BOOLEAN}
+ASSUME ndJsonSerialize("fam.ndjson", SetToSeq(One \cup Two \cup {c \in Many : TRUE} \cup Pipes \cup Seqs \cup Hist3 \cup SiteHist \cup LitCases))
 =============================================================================
